@@ -22,9 +22,12 @@ from .sym import S, Sym, ZERO, symarray, symify, var
 def assert_repo_import():
     import openaerostruct
 
+    import os
+
     f = openaerostruct.__file__
-    if not f.startswith("/repo/"):
-        raise SystemExit("HARNESS-ERROR: openaerostruct imported from %s, not /repo" % f)
+    root = os.environ.get("OAS_REPO", "/repo").rstrip("/") + "/"
+    if not f.startswith(root):
+        raise SystemExit("HARNESS-ERROR: openaerostruct imported from %s, not %s" % (f, root))
 
 
 # ---------------------------------------------------------------------------------- stores
